@@ -275,6 +275,7 @@ package recordio
 //@   replay seeknext_model
 //@   bounded seeknext_model SeekNext from every byte offset: the full list and all ordered pairs of 10 adversarial payloads (marker bytes, marker prefixes at the end, a marker followed by an overflowing varint, empty, nil) x 2 compression types; result must be the first record starting at or after the offset, or io.EOF behind the last record
 //@   requires r.header != nil && r.mmapReader != nil && r.bufferPool != nil && offset < 4611686018427387904 && r.seekLen > 0
+//@   requires [current-format] r.header.fileVersion != Version1 && r.header.fileVersion != Version2 && r.header.fileVersion != Version3
 //@   exit [C04,C03:a-candidate-without-a-header-never-fails-the-seek] r2 != nil && called(MMapReader.readNextAt, 0) && !errIs(r2, io.EOF) &&
 //@        r2 === callres(MMapReader.readNextAt, 0, 2) ==> callres(MMapReader.readNextAt, 0, 1)
 //@   exit [C04:found-record-is-returned-as-read] r2 == nil ==> called(MMapReader.readNextAt, 0) && callres(MMapReader.readNextAt, 0, 2) == nil &&
